@@ -86,12 +86,14 @@ def run(ctx):
     ctx.rule("R3", "cycle visitors descend into every same-node operator; every Transformation variant reports its source variable")
     ctx.rule("R4", "the fix template is built with the transformation names on every path where they exist")
     ctx.rule("R5", "one variable grammar: template scanner and pattern recogniser share the character-class functions")
+    ctx.rule("R6", "a sub-rule whose variables defined_vars declares is always evaluated with the caller's environment (never through the env-less find/matches API)")
     r1(ctx)
     reach, bearing = rule_bearing(prog)
     r2(ctx, reach, bearing)
     r3(ctx, bearing)
     r4(ctx)
     r5(ctx)
+    r6(ctx, bearing)
 
 
 # ------------------------------------------------------------------------------------------------
@@ -301,6 +303,11 @@ def r2(ctx, reach, bearing):
                     for fname, fty, hs in fields:
                         n += 1
                         hit = visits(prog, fn, calls, visitor, want_field=fname)
+                        if hit is None and visitor == "defined_vars":
+                            ev = field_evals(prog, adt).get(fname, {"less": [], "ful": []})
+                            if ev["less"] and not ev["ful"]:
+                                ctx.ob("R2", "%s::%s/.%s" % (adt, visitor, fname), True, "field %s is only ever evaluated with a private environment (%s): its variables cannot reach a match, so defined_vars rightly leaves it out" % (fname, sorted(set(ev["less"]))[:2]), where=fn.loc(), nontrivial=False)
+                                continue
                         ctx.ob("R2", "%s::%s/.%s" % (adt, visitor, fname), hit is not None,
                                ("calls %s on self.%s" % (hit.best, fname)) if hit else "field %s: %s contains rules but `%s` never visits it" % (fname, fty, visitor),
                                where=fn.loc(hit.line if hit else None))
@@ -608,3 +615,133 @@ def visitor_examines_all_fields(ctx, rid, vd):
                "the test of `%s` dominates every Ok return" % field if not early else
                "the visitor can return Ok (bb%s) without having looked at `%s` (%s): dependencies through it are missing from the order, so utilities are registered "
                "in hash-map order and cyclic ones are not detected" % (early, field, why), where=vd.loc())
+
+
+ENVLESS = {"matches", "find", "find_all", "match_node", "find_node", "inside", "has", "precedes", "follows"}
+ENVFUL = {"match_node_with_env", "do_match", "match_and_add_label"}
+
+
+_FE = {}
+
+
+def field_evals(prog, adt, _stack=()):
+    """field (struct) or variant (enum) of a rule-bearing type -> {'less': [sites], 'ful': [sites]}: where its sub-rule is evaluated
+    through the env-less API (Node::find/matches, MatcherExt::match_node…) resp. with an environment; a field handed to a method of
+    its own rule-bearing type (self.stop_by.find(..)) inherits that type's evaluations"""
+    key_ = (id(prog), adt)
+    if key_ in _FE:
+        return _FE[key_]
+    if adt in _stack:
+        return {}
+    is_enum = prog.adts[adt]["kind"] == "Enum"
+    methods = [f for f in prog.fns.values() if not f.is_closure and f.impl_self and head(f.impl_self) == adt and f.crate == "ast_grep_config"]
+    evals = {}  # key (variant-or-field) -> {"less": [sites], "ful": [sites]}
+    for m in methods:
+        if m.name in VISITORS or m.name in ("check_cyclic", "potential_kinds", "try_from", "new", "fmt", "clone"):
+            continue
+        for g in prog.family(m):
+            for c in g.calls:
+                if c.bb not in g.live_blocks:
+                    continue
+                kind = "less" if c.name in ENVLESS else ("ful" if c.name in ENVFUL else None)
+                # a method of the field's own rule-bearing type
+                if c.args and c.args[0][0] != "k":
+                    for t in prog.call_targets(c):
+                        h = prog.fns.get(t)
+                        if h is None or not h.impl_self or h.impl_trait or h.crate != "ast_grep_config" or h.name in VISITORS:
+                            continue
+                        adt2 = head(h.impl_self)
+                        if adt2 == adt or adt2 not in prog.adts:
+                            continue
+                        keys = set()
+                        for ff, o in ultimate_roots(prog, g, c.args[0], TRANSPARENT | {"deref", "inner"}):
+                            if ff is m and o.kind == "param" and o.ref == 1:
+                                keys |= set(proj_variants(o.proj) if is_enum else field_path(o.proj)[:1])
+                        if keys:
+                            sub = field_evals(prog, adt2, _stack + (adt,))
+                            for k in keys:
+                                for ev2 in sub.values():
+                                    for kk in ("less", "ful"):
+                                        evals.setdefault(k, {"less": [], "ful": []})[kk] += ["%s [in %s]" % (x, adt2.split("::")[-1]) for x in ev2[kk]]
+                            kind = None
+                if kind is None and c.args:
+                    # a helper that is handed the sub-rule (`inclusive_until(stop)`): look at what it does with that parameter
+                    tg = [t for t in prog.call_targets(c) if t in prog.fns and prog.fns[t].crate == "ast_grep_config" and not prog.fns[t].impl_trait]
+                    if len(tg) == 1 and tg[0] != m.id:
+                        h = prog.fns[tg[0]]
+                        for i, a in enumerate(c.args):
+                            if a[0] == "k":
+                                continue
+                            keys = set()
+                            for ff, o in ultimate_roots(prog, g, a, TRANSPARENT | {"deref", "inner"}):
+                                if ff is m and o.kind == "param" and o.ref == 1:
+                                    keys |= set(proj_variants(o.proj) if is_enum else field_path(o.proj)[:1])
+                            if not keys:
+                                continue
+                            for hg in prog.family(h):
+                                for c2 in hg.calls:
+                                    k2 = "less" if c2.name in ENVLESS else ("ful" if c2.name in ENVFUL else None)
+                                    if k2 is None or not c2.args or c2.bb not in hg.live_blocks:
+                                        continue
+                                    tr2 = c2.callee.get("trait") or ""
+                                    cand2 = [c2.args[0]] if (c2.name in ENVFUL or tr2.endswith("::Matcher") or tr2.endswith("::MatcherExt")) else c2.args[1:2]
+                                    for a2 in cand2:
+                                        if a2[0] != "k" and any(f3 is h and o3.kind == "param" and o3.ref == i + 1 for f3, o3 in ultimate_roots(prog, hg, a2, TRANSPARENT | {"deref", "inner"})):
+                                            for k in keys:
+                                                evals.setdefault(k, {"less": [], "ful": []})[k2].append("%s (%s via %s L%d)" % (c2.name, m.name, h.name, c2.line))
+                if kind is None or not c.args:
+                    continue
+                tr = c.callee.get("trait") or ""
+                if c.name in ENVFUL or tr.endswith("::Matcher") or tr.endswith("::MatcherExt"):
+                    cand = [c.args[0]]
+                else:
+                    cand = c.args[1:2]
+                for a in cand:
+                    if a[0] == "k":
+                        continue
+                    for ff, o in ultimate_roots(prog, g, a, TRANSPARENT | {"deref", "inner"}):
+                        if ff is m and o.kind == "param" and o.ref == 1:
+                            keys = proj_variants(o.proj) if is_enum else field_path(o.proj)[:1]
+                            for k in keys:
+                                evals.setdefault(k, {"less": [], "ful": []})[kind].append("%s (%s L%d)" % (c.name, m.name, c.line))
+    _FE[key_] = evals
+    return evals
+
+
+def r6(ctx, bearing):
+    """converse clause: a variable the checker accepts must be able to reach the match.  defined_vars() of a rule type declares the
+    variables of its sub-rule fields; a field evaluated through Node::find / Node::matches / MatcherExt::match_node gets a private
+    environment whose bindings are dropped, so such a field must not be declared (and a declared field must not be evaluated so)."""
+    prog = ctx.prog
+    n = 0
+    for adt in sorted(bearing):
+        if adt.startswith("ast_grep_core::") or adt in BY_NAME or adt not in prog.adts:
+            continue
+        is_enum = prog.adts[adt]["kind"] == "Enum"
+        if adt == RULE:
+            continue  # Rule only dispatches to its payloads
+        bf = bearing_fields(prog, adt, bearing)
+        methods = [f for f in prog.fns.values() if not f.is_closure and f.impl_self and head(f.impl_self) == adt and f.crate == "ast_grep_config"]
+        dv = [f for f in methods if f.name == "defined_vars" and not f.impl_trait]
+        if len(dv) != 1:
+            continue
+        dvf = dv[0]
+        dcalls = calls_in(prog, dvf, dvf.live_blocks)
+        evals = field_evals(prog, adt)
+        for v, fields in sorted(bf.items()):
+            items = [(v, None)] if is_enum else [(fname, fty) for fname, fty, hs in fields]
+            if is_enum and not fields:
+                continue
+            for key, fty in items:
+                declared = visits(prog, dvf, dcalls, "defined_vars", want_variant=key) if is_enum else visits(prog, dvf, dcalls, "defined_vars", want_field=key)
+                ev = evals.get(key, {"less": [], "ful": []})
+                if not ev["less"] and not ev["ful"]:
+                    continue
+                n += 1
+                bad = declared is not None and ev["less"]
+                ctx.ob("R6", "%s.%s declared by defined_vars => evaluated with the caller's environment" % (adt, key), not bad,
+                       ("declared=%s; evaluated with env at %d site(s), env-less at %d" % (declared is not None, len(ev["ful"]), len(ev["less"]))) if not bad else
+                       "defined_vars() declares the variables of `%s`, but %s evaluates it through the env-less API (%s): those variables are accepted in fix/transform/constraints "
+                       "and can never be captured — the fix substitutes an empty string (and repeated occurrences are not compared)" % (key, adt.split("::")[-1], sorted(set(ev["less"]))[:3]),
+                       where=dvf.loc())
+    ctx.floor("R6", "evaluated rule-bearing fields", n, 6)
